@@ -65,6 +65,37 @@ func hashStrings(parts ...string) string {
 
 var errBudget = errors.New("simulation budget exceeded")
 
+// errInjected is what a client call answers when the fault plan of the
+// running operation says so: a transient failure of the (simulated) network
+// client. It is not ErrNotFound.
+var errInjected = errors.New("injected fault: service unavailable")
+
+// Fault kinds of an operation (the aborted-operation fault family). The fault
+// fires at the operation's at-th client call, if it makes that many.
+const (
+	faultNone        = 0
+	faultCancel      = 1 // the operation's context is cancelled; client calls keep answering
+	faultCancelCalls = 2 // cancelled, and this and every later call of the operation answers ctx.Err()
+	faultErrOnce     = 3 // that one call answers errInjected
+	faultErrFrom     = 4 // that call and every later call of the operation answer errInjected
+	faultErrEvery    = 5 // from that call on, every second, third or fourth call answers errInjected
+	numFaultKinds    = 6
+)
+
+var faultNames = [...]string{"none", "cancel", "cancel+calls-fail", "client-error-once", "client-errors-from", "client-errors-intermittent"}
+
+// callKinds are the client calls a fault can be aimed at (0: any call).
+var callKinds = [...]string{"", "MatchingVersions", "Requirements", "Versions", "Version"}
+
+func callKindIndex(label string) int {
+	for i := 1; i < len(callKinds); i++ {
+		if callKinds[i] == label {
+			return i
+		}
+	}
+	return 0
+}
+
 // simClient is the simulated resolve.Client seam: every call is a yield point
 // with a drawn latency (exactly where production code would block on I/O).
 // All bookkeeping shared between tasks lives in the kernel.
@@ -74,6 +105,28 @@ type simClient struct {
 	cancels []context.CancelFunc // per task
 	calls   []int                // per task, calls in the current operation
 	maxCall int
+	// fault plan of each task's current operation; a task touches only its
+	// own slots
+	fkind   []int
+	fat     []int
+	flabel  []int // 0: count every call; else only calls of callKinds[flabel]
+	fperiod []int
+	fcount  []int
+	fired   []bool
+}
+
+// plan sets the fault plan of the running task's next operation: the fault
+// fires at the at-th call (of the given kind, if label != 0).
+func (c *simClient) plan(t, kind, label, at, period int) {
+	if c.fkind == nil {
+		return
+	}
+	c.fkind[t], c.flabel[t], c.fat[t], c.fperiod[t], c.fcount[t], c.fired[t] = kind, label, at, period, 0, false
+}
+
+func (c *simClient) enableFaults() {
+	n := len(c.calls)
+	c.fkind, c.fat, c.flabel, c.fperiod, c.fcount, c.fired = make([]int, n), make([]int, n), make([]int, n), make([]int, n), make([]int, n), make([]bool, n)
 }
 
 func (c *simClient) enter(label string) error {
@@ -99,6 +152,37 @@ func (c *simClient) enter(label string) error {
 			c.cancels[t]()
 		}
 		return errBudget
+	}
+	if c.fkind != nil && c.fkind[t] != faultNone && (c.flabel[t] == 0 || callKinds[c.flabel[t]] == label) {
+		c.fcount[t]++
+	}
+	if c.fkind != nil && c.fkind[t] != faultNone && c.fcount[t] >= c.fat[t] && (c.fired[t] || c.flabel[t] == 0 || callKinds[c.flabel[t]] == label) {
+		first := !c.fired[t]
+		c.fired[t] = true
+		switch c.fkind[t] {
+		case faultCancel:
+			if first && c.cancels[t] != nil {
+				c.cancels[t]()
+			}
+		case faultCancelCalls:
+			if first && c.cancels[t] != nil {
+				c.cancels[t]()
+			}
+			return context.Canceled
+		case faultErrOnce:
+			if first {
+				return errInjected
+			}
+		case faultErrFrom:
+			return errInjected
+		case faultErrEvery:
+			if c.flabel[t] != 0 && callKinds[c.flabel[t]] != label {
+				break // intermittent errors stay on the kind of call they are aimed at
+			}
+			if (c.fcount[t]-c.fat[t])%c.fperiod[t] == 0 {
+				return errInjected
+			}
+		}
 	}
 	return nil
 }
